@@ -1,6 +1,7 @@
 /-
-  C01/Model — otto's statement evaluator, transcribed from cmpl_evaluate_statement.go
-  (with the two `fix:` commits a0ba018 / a9c3fe3 applied, as the code now stands).
+  C01/Model — otto's statement evaluator, transcribed from cmpl_evaluate_statement.go and result.go
+  (as the code stands after the `fix:` commits a0ba018 / a9c3fe3 and the completion-value repairs
+  2145201 / 1304643 / the per-pass value of loops and the label reset of if / with).
   JS `throw` is Go `panic(*exception)`: modelled by the `throw` result; every `defer` is modelled by
   explicit restoration on the exceptional path.  `rt.labels` is threaded explicitly (`L`).
   Fuel-indexed and total; `fuel` = ran out of fuel (never a real outcome).
@@ -13,9 +14,9 @@ variable {St : Type}
 inductive OV where
   | empty
   | val (v : Val)
-  | brk (t : String)      -- newBreakResult(target)
-  | cont (t : String)     -- newContinueResult(target)
-  | ret (v : Val)         -- newReturnResult(value)
+  | brk (t : String) (c : Option Val)     -- newBreakResult(target); `c` = result.value (none = emptyValue)
+  | cont (t : String) (c : Option Val)    -- newContinueResult(target)
+  | ret (v : Val)                         -- newReturnResult(value)
 deriving DecidableEq, Repr, Inhabited
 
 inductive MR (St : Type) where
@@ -25,19 +26,41 @@ inductive MR (St : Type) where
 
 /-- value.go:727 evaluateBreak(labels) == resultBreak -/
 def isBreakIn (labels : List String) : OV → Bool
-  | .brk t => labels.contains t
+  | .brk t _ => labels.contains t
   | _ => false
 
 inductive RK | ret | brk | cont deriving DecidableEq
 
 /-- value.go:715 evaluateBreakContinue(labels) -/
 def evalBC (labels : List String) : OV → RK
-  | .brk t => if labels.contains t then .brk else .ret
-  | .cont t => if labels.contains t then .cont else .ret
+  | .brk t _ => if labels.contains t then .brk else .ret
+  | .cont t _ => if labels.contains t then .cont else .ret
   | _ => .ret
 
 def isResult : OV → Bool
-  | .brk _ => true | .cont _ => true | .ret _ => true | _ => false
+  | .brk _ _ => true | .cont _ _ => true | .ret _ => true | _ => false
+
+/-- the value an otto statement value stands for: emptyValue = none; for break / continue the value carried -/
+def ovVal : OV → Option Val
+  | .empty => none
+  | .val v => some v
+  | .brk _ c => c
+  | .cont _ c => c
+  | .ret v => some v
+
+/-- result.go Value.carrying(value): a break / continue completion without a value takes `value` (unless empty) -/
+def carrying (o : OV) (value : OV) : OV :=
+  match o, value with
+  | .brk t none, .val w => .brk t (some w)
+  | .cont t none, .val w => .cont t (some w)
+  | _, _ => o
+
+/-- result.go Value.carried(otherwise): the value a break / continue completion brings along, or `otherwise` -/
+def carried (o : OV) (otherwise : OV) : OV :=
+  match o with
+  | .brk _ (some w) => .val w
+  | .cont _ (some w) => .val w
+  | _ => otherwise
 
 /-- the labelled statement's deferred pop (cmpl_evaluate_statement.go:72) -/
 def popLabel (L : List String) : List String := if L.length > 0 then L.dropLast else []
@@ -86,14 +109,15 @@ def nextResult (o result : OV) : OV :=
   | .empty => result
   | _ => o
 
-/-- block: a break to one of the labels captured at entry completes the block (returns emptyValue) -/
+/-- block: a break to one of the labels captured at entry completes the block with the value it carries
+    (cmpl_evaluate_statement.go:35–41 `return value.carried(emptyValue)`) -/
 def blockWrap (L : List String) : MR St → MR St
-  | .ok o L' σ' => if isBreakIn L o then .ok .empty L' σ' else .ok o L' σ'
+  | .ok o L' σ' => if isBreakIn L o then .ok (carried o .empty) L' σ' else .ok o L' σ'
   | r => r
 
 /-- labelled statement: deferred pop of the label; (fix a0ba018) a break to the label completes it -/
 def labelWrap (l : String) : MR St → MR St
-  | .ok o L' σ' => if isBreakIn [l] o then .ok .empty (popLabel L') σ' else .ok o (popLabel L') σ'
+  | .ok o L' σ' => if isBreakIn [l] o then .ok (carried o .empty) (popLabel L') σ' else .ok o (popLabel L') σ'
   | .throw v L' σ' => .throw v (popLabel L') σ'
   | .fuel => .fuel
 
@@ -140,18 +164,18 @@ def loopStep (again : OV → List String → St → MR St) : BR St → MR St
 /-- how the switch statement reacts to running its clauses -/
 def switchWrap : BR St → MR St
   | .next r L' σ3 => .ok r L' σ3
-  | .brk _ L' σ3 => .ok .empty L' σ3          -- switch-break returns emptyValue
+  | .brk r L' σ3 => .ok r L' σ3               -- `return value.carried(result)`
   | .cont r L' σ3 => .ok r L' σ3              -- (not produced by ottoCases)
   | .retv o L' σ3 => .ok o L' σ3
   | .throw v L' σ3 => .throw v L' σ3
   | .fuel => .fuel
 
-/-- dispatch on a body statement's `valueResult` -/
-def bodyResult (labels : List String) (o result : OV) (L' : List String) (σ' : St) : BR St :=
+/-- dispatch on a body statement's `valueResult`: `return value.carrying(pass)`, `result = value.carried(result)` -/
+def bodyResult (labels : List String) (o result pass : OV) (L' : List String) (σ' : St) : BR St :=
   match evalBC labels o with
-  | .ret => .retv o L' σ'
-  | .brk => .brk result L' σ'
-  | .cont => .cont result L' σ'
+  | .ret => .retv (carrying o pass) L' σ'
+  | .brk => .brk (carried o result) L' σ'
+  | .cont => .cont (carried o result) L' σ'
 
 mutual
 
@@ -168,11 +192,13 @@ def ottoS (S : Sem St) : Nat → Stmt → List String → St → MR St
     | .varS inits => ottoVars S n inits L σ
     | .block ss =>
       -- labels := rt.labels; rt.labels = nil
-      blockWrap L (ottoList S n ss [] σ (.val .undef))
+      blockWrap L (ottoList S n ss [] σ .empty)
     | .ifS c t e =>
       match S.evalE c σ with
       | .throw v σ' => .throw v L σ'
-      | .ok v σ' => if S.truthy v then ottoS S n t L σ' else ottoS S n e L σ'
+      | .ok v σ' =>
+        -- `rt.labels = nil`: labels wait only for the statement they label (12.12)
+        if S.truthy v then ottoS S n t [] σ' else ottoS S n e [] σ'
     | .whileS c b => ottoWhile S n c (bodyList b) (L ++ [""]) [] σ .empty
     | .doWhile b c => ottoDoWhile S n (bodyList b) c (L ++ [""]) [] σ .empty
     | .forS init test update b =>
@@ -185,8 +211,8 @@ def ottoS (S : Sem St) : Nat → Stmt → List String → St → MR St
     | .labelled l s =>
       -- rt.labels = append(rt.labels, l); defer pop; the fix: consume a break to l
       labelWrap l (ottoS S n s (L ++ [l]) σ)
-    | .brk t => .ok (.brk t) L σ
-    | .cont t => .ok (.cont t) L σ
+    | .brk t => .ok (.brk t none) L σ
+    | .cont t => .ok (.cont t none) L σ
     | .ret none => .ok (.ret .undef) L σ
     | .ret (some e) =>
       match S.evalE e σ with
@@ -199,9 +225,9 @@ def ottoS (S : Sem St) : Nat → Stmt → List String → St → MR St
     | .tryS b hasCatch param c hasFin f =>
       -- tryCatchEvaluate(body); catch; finally.  The three parts are Blocks (nodeBlockStatement):
       -- each is evaluated as `.block` is above.
-      finallyPhase hasFin (fun L2 σ2 => blockWrap L2 (ottoList S n f [] σ2 (.val .undef)))
-        (catchPhase S hasCatch param (fun L1 σ1 => blockWrap L1 (ottoList S n c [] σ1 (.val .undef)))
-          (blockWrap L (ottoList S n b [] σ (.val .undef))))
+      finallyPhase hasFin (fun L2 σ2 => blockWrap L2 (ottoList S n f [] σ2 .empty))
+        (catchPhase S hasCatch param (fun L1 σ1 => blockWrap L1 (ottoList S n c [] σ1 .empty))
+          (blockWrap L (ottoList S n b [] σ .empty)))
     | .withS e b =>
       -- cmplEvaluateNodeWithStatement (cmpl_evaluate_statement.go): object expression, toObject,
       -- new object stash in front, deferred restore, then the body statement (rt.labels untouched)
@@ -210,7 +236,7 @@ def ottoS (S : Sem St) : Nat → Stmt → List String → St → MR St
       | .ok v σ' =>
         match S.withEnter v σ' with
         | .throw t σ2 => .throw t L σ2
-        | .ok _ σ2 => withExitWrap S (ottoS S n b L σ2)
+        | .ok _ σ2 => withExitWrap S (ottoS S n b [] σ2)      -- `rt.labels = nil` before the body
     | .switchS d cs =>
       -- labels := append(rt.labels, ""); rt.labels = nil
       match S.evalE d σ with
@@ -234,29 +260,29 @@ def ottoVars (S : Sem St) : Nat → List Expr → List String → St → MR St
     | .throw v σ' => .throw v L σ'
     | .ok _ σ' => ottoVars S n es L σ'
 
-/-- cmplEvaluateNodeStatementList (cmpl_evaluate_statement.go:124); `result` starts as the zero
-    Value (undefined, NOT empty) -/
+/-- cmplEvaluateNodeStatementList (cmpl_evaluate_statement.go:132); `result` starts as emptyValue; an abrupt
+    completion leaves as `value.carrying(result)` -/
 def ottoList (S : Sem St) : Nat → Stmts → List String → St → OV → MR St
   | 0, _, _, _, _ => .fuel
   | _+1, .nil, L, σ, result => .ok result L σ
   | n+1, .cons s ss, L, σ, result =>
     match ottoS S n s L σ with
     | .ok o L' σ' =>
-      if isResult o then .ok o L' σ'
+      if isResult o then .ok (carrying o result) L' σ'
       else ottoList S n ss L' σ' (nextResult o result)
     | r => r
 
 /-- one pass over a loop body (the inner `for _, node := range body` of the loop statements) -/
-def ottoBody (S : Sem St) : Nat → Stmts → List String → List String → St → OV → BR St
-  | 0, _, _, _, _, _ => .fuel
-  | _+1, .nil, _, L, σ, result => .next result L σ
-  | n+1, .cons s ss, labels, L, σ, result =>
+def ottoBody (S : Sem St) : Nat → Stmts → List String → List String → St → OV → OV → BR St
+  | 0, _, _, _, _, _, _ => .fuel
+  | _+1, .nil, _, L, σ, result, _ => .next result L σ
+  | n+1, .cons s ss, labels, L, σ, result, pass =>
     match ottoS S n s L σ with
     | .fuel => .fuel
     | .throw v L' σ' => .throw v L' σ'
     | .ok o L' σ' =>
-      if isResult o then bodyResult labels o result L' σ'
-      else ottoBody S n ss labels L' σ' (nextResult o result)
+      if isResult o then bodyResult labels o result pass L' σ'
+      else ottoBody S n ss labels L' σ' (nextResult o result) (nextResult o pass)   -- `pass, result = value, value`
 
 /-- cmplEvaluateModeWhileStatement (cmpl_evaluate_statement.go:387) -/
 def ottoWhile (S : Sem St) : Nat → Expr → Stmts → List String → List String → St → OV → MR St
@@ -266,7 +292,7 @@ def ottoWhile (S : Sem St) : Nat → Expr → Stmts → List String → List Str
     | .throw v σ' => .throw v L σ'
     | .ok v σ' =>
       if !S.truthy v then .ok result L σ'
-      else loopStep (fun r L' σ2 => ottoWhile S n c body labels L' σ2 r) (ottoBody S n body labels L σ' result)
+      else loopStep (fun r L' σ2 => ottoWhile S n c body labels L' σ2 r) (ottoBody S n body labels L σ' result .empty)
 
 /-- cmplEvaluateNodeDoWhileStatement (cmpl_evaluate_statement.go:143) -/
 def ottoDoWhile (S : Sem St) : Nat → Stmts → Expr → List String → List String → St → OV → MR St
@@ -276,7 +302,7 @@ def ottoDoWhile (S : Sem St) : Nat → Stmts → Expr → List String → List S
       match S.evalE c σ2 with
       | .throw v σ3 => .throw v L' σ3
       | .ok v σ3 => if !S.truthy v then .ok r L' σ3 else ottoDoWhile S n body c labels L' σ3 r
-    loopStep test (ottoBody S n body labels L σ result)
+    loopStep test (ottoBody S n body labels L σ result .empty)
 
 /-- the loop of cmplEvaluateNodeForStatement (cmpl_evaluate_statement.go:239), after the initializer -/
 def ottoFor (S : Sem St) : Nat → Option Expr → Option Expr → Stmts → List String → List String → St → OV → MR St
@@ -290,7 +316,7 @@ def ottoFor (S : Sem St) : Nat → Option Expr → Option Expr → Stmts → Lis
         | .throw v σ3 => .throw v L' σ3
         | .ok _ σ3 => ottoFor S n test update body labels L' σ3 r
     let run (σ1 : St) : MR St :=
-      loopStep upd (ottoBody S n body labels L σ1 result)
+      loopStep upd (ottoBody S n body labels L σ1 result .empty)
     match test with
     | none => run σ
     | some t =>
@@ -317,13 +343,13 @@ def ottoClause (S : Sem St) : Nat → Stmts → List String → List String → 
     | .throw v L' σ' => .throw v L' σ'
     | .ok o L' σ' =>
       if isResult o then
-        if isBreakIn labels o then .brk result L' σ' else .retv o L' σ'
+        if isBreakIn labels o then .brk (carried o result) L' σ' else .retv (carrying o result) L' σ'
       else ottoClause S n ss labels L' σ' (nextResult o result)
 
 end
 
 /-- cmplEvaluateNodeProgram body: the statement list from rest (labels nil) -/
 def ottoProgram (S : Sem St) (n : Nat) (ss : Stmts) (σ : St) : MR St :=
-  ottoList S n ss [] σ (.val .undef)
+  ottoList S n ss [] σ .empty
 
 end OttoVerif.C01
